@@ -220,6 +220,15 @@ def rule_const(prop, repo):
         nb = info["new"]
         tb = repo.tb(nb)
         muls = [(bb, tt) for bb, tt in nb.calls() if (tt.get("fn") or {}).get("res_def") == "crate::u256::U256::mul"]
+        if not muls:
+            # the strict constructor may hand the range-checked value to the reducing one, which holds the multiplication by R²
+            for _bb, tt in nb.calls():
+                cb2 = F.bodies.get((tt.get("fn") or {}).get("res_def") or "")
+                if cb2 is not None and cb2.rec.get("impl_self_adt") == ap:
+                    m2 = [(b2, t2) for b2, t2 in cb2.calls() if (t2.get("fn") or {}).get("res_def") == "crate::u256::U256::mul"]
+                    if len(m2) == 1:
+                        nb, tb, muls = cb2, repo.tb(cb2), m2
+                        break
         if len(muls) != 1:
             R.fail_closed("%s:const:%s:new-shape" % (prop, short), "%s::new does not contain exactly one Montgomery multiplication" % short, nb.file_line())
             continue
